@@ -51,9 +51,10 @@ LEVEL_NOTE = ("project_equations (revision, linearisation, singular_coords) is a
               "Round 13: WorldHyp is needed only on the configurations REACHABLE by the removal loop - the sub-configurations of the given "
               "network (same ids, statuses kept or unused; closed under project_equations, the huge-covariance pass and removeUnknown: "
               "Lemmas/NetDecisionRestrict.lean decideA_congr, closed_subOf) - C20_adjusted_sound_of_project_equations_reachable / "
-              "_subconfigurations (Props/C20/ProjectEquationsReachable.lean); over R: NetHyp .gso witnessed on 6 of the 8 sub-configurations of "
-              "Ex.netWobs, each on the evaluated output of project_equations() (C20_nethyp_subconfigurations_pe_witness, Props/C20/PeWitness.lean; "
-              "missing: (fixed,constrained,unused) and (unused,constrained,free)). "
+              "_subconfigurations (Props/C20/ProjectEquationsReachable.lean); over R: NetHyp .gso witnessed on ALL 8 sub-configurations of "
+              "Ex.netWobs, each on the evaluated output of project_equations() (C20_nethyp_subconfigurations_pe_witness, "
+              "C20_worldhyp_reachable_pe_witness, Props/C20/PeWitness.lean), and the sub-configuration theorem applied to it with only its "
+              "antecedent left, the verdict of the removal loops (C20_adjusted_sound_pe_witness; the verdict itself is not evaluated over R). "
               "The older theorems keep an abstract pe: "
               "the world hypotheses WF / RefusalFlags / RefusalFirst and the verdict theorem C20_adjusted_sound are THEOREMS for "
               "worlds built from the solver models gso, cholesky (Props/C20/World.lean), envelope and svd "
